@@ -51,7 +51,7 @@ IMPURE_EXTERNAL = {"numpy.put", "numpy.copyto", "numpy.fill_diagonal", "numpy.se
                    "numpy.save", "numpy.savetxt", "numpy.load", "numpy.loadtxt"}
 IMPURE_EXTERNAL_PREFIX = ("numpy.random.",)
 PURE_BUILTINS = {"dict", "list", "tuple", "set", "frozenset", "sorted", "sum", "zip", "enumerate", "reversed", "any", "all",
-                 "slice", "range"}
+                 "slice", "range", "super"}
 PURE_METHODS = {"get", "items", "keys", "values", "upper", "lower", "strip", "lstrip", "rstrip", "split", "rsplit",
                 "partition", "rpartition", "startswith", "endswith", "join", "format", "replace", "title",
                 "total_seconds", "isoformat", "index", "count", "zfill", "ljust", "rjust", "center", "capitalize",
